@@ -1,5 +1,5 @@
 (* Props/C19.v — cancelling a pending async read loses nothing. *)
-Require Import Base.Bytes Net.Frame Net.Framed Net.FramedProofs Net.Async Net.AsyncProofs Net.AsyncRefines Net.Concrete Net.AsyncConvProofs.
+Require Import Base.Bytes Net.Frame Net.Framed Net.FramedProofs Net.Async Net.AsyncProofs Net.AsyncRefines Net.Concrete Net.AsyncConvProofs Net.AsyncResults.
 Local Open Scope N_scope.
 
 (* For every packet layer, mode, transport script (data in any segmentation, transient errors,
@@ -101,6 +101,35 @@ Proof. exact aconv_ok. Qed.
    names): receive buffer + verification flag; the tokio one also the outstanding reply and its packet *)
 Theorem c19_model_state_is_the_struct : state_tied = true.
 Proof. vm_compute. reflexivity. Qed.
+
+
+(* THE RESULTS, in full generality: for every readiness pattern of both halves of the transport (not-ready turns
+   anywhere on the read half; partial accepts and not-ready turns on the write half), every schedule of dropped
+   read() futures and every schedule of caller writes in between, the results returned so far are a prefix of
+   what the plain connection model (Net/Framed.v, the model of C05/C07/C09) returns for the same bytes, preceded
+   by the keep-alive that is being held back behind its reply, if any: nothing is lost, duplicated or reordered *)
+Theorem c19_results_are_the_connections :
+  forall (packet : Type) (parse : bytes -> res packet) (ver_of : packet -> option N)
+         (is_keepalive : packet -> bool) (version : N) (m : mode) (verify : bool) (pong : bytes),
+  forall fuel c s rs ws cancels wsched acc,
+    forallb no_fail ws = true ->
+    Inv packet parse ver_of is_keepalive version m verify pong c s ->
+    prefix (results packet (aconv packet parse ver_of is_keepalive version m verify pong fuel c s rs ws cancels wsched acc))
+           (held packet s ++ rets packet (session packet parse ver_of is_keepalive version m verify pong fuel (fbuf s) (strip rs ++ [Eof]))).
+Proof. exact aconv_results. Qed.
+
+(* and once the conversation has seen the end of the stream (any final result) it has returned ALL of them *)
+Theorem c19_results_complete_at_end_of_stream :
+  forall (packet : Type) (parse : bytes -> res packet) (ver_of : packet -> option N)
+         (is_keepalive : packet -> bool) (version : N) (m : mode) (verify : bool) (pong : bytes),
+  forall fuel c s rs ws cancels wsched acc pre x,
+    forallb no_fail ws = true ->
+    Inv packet parse ver_of is_keepalive version m verify pong c s ->
+    results packet (aconv packet parse ver_of is_keepalive version m verify pong fuel c s rs ws cancels wsched acc) = pre ++ [x] ->
+    is_final packet (Ret x) = true ->
+    results packet (aconv packet parse ver_of is_keepalive version m verify pong fuel c s rs ws cancels wsched acc)
+    = held packet s ++ rets packet (session packet parse ver_of is_keepalive version m verify pong fuel (fbuf s) (strip rs ++ [Eof])).
+Proof. exact aconv_results_complete. Qed.
 
 
 (* non-vacuity: the future is dropped while the keep-alive reply is half written and again while waiting for data *)
